@@ -188,6 +188,16 @@ def check_surrogate(ctx: Ctx) -> None:
         ok = len(st) == 1 and dotted(st[0].targets[0].slice) == nm and isinstance(st[0].value, ast.Call) and last_attr(st[0].value) in ("flatten", "ravel", "copy") and dotted(st[0].value.func.value) == val
         rets = [s for s in stmts_of(f) if isinstance(s, ast.Return)]
         ok = ok and len(rets) == 1 and dotted(rets[0].value) == dotted(st[0].targets[0].value)
+    if not ok:
+        # the same as a dict comprehension over the predictions
+        comps = [s for s in stmts_of(f) if isinstance(s, (ast.Assign, ast.Return)) and isinstance(s.value, ast.DictComp) and pr and pr[0] in list(ast.walk(s.value.generators[0].iter))]
+        if len(comps) == 1 and len(comps[0].value.generators) == 1 and not comps[0].value.generators[0].ifs and isinstance(comps[0].value.generators[0].target, ast.Tuple):
+            dc = comps[0].value
+            nm, val = (dotted(e) for e in dc.generators[0].target.elts)
+            ok = dotted(dc.key) == nm and isinstance(dc.value, ast.Call) and last_attr(dc.value) in ("flatten", "ravel", "copy") and dotted(dc.value.func.value) == val
+            rets = [s for s in stmts_of(f) if isinstance(s, ast.Return)]
+            ok = ok and len(rets) == 1 and (rets[0] is comps[0] or dotted(rets[0].value) == dotted(comps[0].targets[0]))
+            loops = comps
     ctx.ob("18.2-predict", con, ok, "each output is the model's prediction for the output of the same name (only flattened)", node=(loops or [f])[0], stmt="outputs = predictions, name by name")
     g = ctx.index.method(SUR, "SurrogateDiscipline", "_compute_jacobian")
     cong = cname(SUR, "SurrogateDiscipline", "_compute_jacobian")
